@@ -295,7 +295,7 @@ static double sconstraint(unsigned n_, const double *x_, double *grad_, void *da
     double *grad = (full_n && grad_) ? fullg : grad_;
     ++ncalls; ++nccalls;
     vclock += clockq;
-    if (!d || d->magic != 0xC0FFEEu || d->vec) fprintf(out, "A bad constraint data pointer\n");
+    if (!d || d->magic != 0xC0FFEEu || d->vec || d->role == 0) fprintf(out, "A bad constraint data pointer\n");
     if (n_ != expect_n) fprintf(out, "A constraint n=%u expected %u\n", n_, expect_n);
     v = cval(d->ck, d->b, d->j0, n, x, grad);
     for (k = 0; k < ninjc; ++k) if (injc_k[k] == nccalls) v = injc_v[k];
@@ -318,7 +318,7 @@ static void mconstraint(unsigned m, double *result, unsigned n_, const double *x
     const double *x = embed(n_, x_);
     ++ncalls; ++nccalls;
     vclock += clockq;
-    if (!d || d->magic != 0xC0FFEEu || !d->vec) fprintf(out, "A bad mconstraint data pointer\n");
+    if (!d || d->magic != 0xC0FFEEu || !d->vec || d->role == 0) fprintf(out, "A bad mconstraint data pointer\n");
     if (n_ != expect_n) fprintf(out, "A mconstraint n=%u expected %u\n", n_, expect_n);
     if ((int) m != d->m) fprintf(out, "A mconstraint m=%u expected %d\n", m, d->m);
     for (j = 0; j < m; ++j)
@@ -580,7 +580,16 @@ static void one_run(const char *line)
         if (getint(line, "nullopt", 0)) ret = nlopt_optimize(NULL, x, &optf);
         else if (getint(line, "nullx", 0)) ret = nlopt_optimize(target, NULL, &optf);
         else if (getint(line, "nullf", 0)) ret = nlopt_optimize(target, x, NULL);
-        else ret = nlopt_optimize(target, x, &optf);
+        else {
+#ifdef RUN_OOM
+            if (r == 0) { oom_fail_at = getint(line, "failalloc", -1); oom_count = 0; oom_fired = 0; oom_armed = 1; }
+#endif
+            ret = nlopt_optimize(target, x, &optf);
+#ifdef RUN_OOM
+            oom_armed = 0;
+            if (r == 0) fprintf(out, "O allocations=%ld fired=%ld\n", oom_count, oom_fired);
+#endif
+        }
         fprintf(out, "R ret=%d optf=", (int) ret); phex(out, optf);
         fprintf(out, " x="); phexlist(out, x, (int) n);
         fprintf(out, " calls=%ld objcalls=%ld numevals=%d fstop=%d guard=%d errmsg=%d\n", ncalls, nobj, nlopt_get_numevals(target),
